@@ -804,6 +804,7 @@ func (s *Session) funcEnv(st *State, fr *Frame, results []Value) *Env {
 			}
 		}
 	}
+	s.addParamAliases(env, s.fn)
 	return env
 }
 
@@ -815,7 +816,7 @@ func (s *Session) callerEnv(st *State) *Env {
 		fr = fr.parent
 	}
 	env := &Env{s: s, pkg: s.fn.Pkg.Pkg, spec: s.spec, st: st, vars: map[string]EVal{}, bound: map[string]EVal{}, old: fr.entry}
-	env.lookup = func(name string) (EVal, bool) {
+	lookup0 := func(name string) (EVal, bool) {
 		ord := 1
 		base := name
 		if i := strings.Index(name, "#"); i > 0 {
@@ -896,6 +897,40 @@ func (s *Session) callerEnv(st *State) *Env {
 		}
 		return EVal{}, false
 	}
+	env.lookup = func(name string) (EVal, bool) {
+		if v, ok := lookup0(name); ok {
+			return v, true
+		}
+		// the identifier may be the name a parameter or local had when the contract was written (names.go)
+		ord := 1
+		base := name
+		if i := strings.Index(name, "#"); i > 0 {
+			base = name[:i]
+			ord, _ = strconv.Atoi(name[i+1:])
+		}
+		al := s.P.paramAliases(s.fn)
+		if cur, ok := al[base]; ok {
+			if v, ok := lookup0(cur); ok {
+				s.note(fmt.Sprintf("contract of %s: identifier %q resolved to the renamed parameter/result %q (names.json)", s.name, base, cur))
+				return v, true
+			}
+		}
+		if strings.HasSuffix(base, "0") && len(base) > 1 {
+			if cur, ok := al[base[:len(base)-1]]; ok {
+				if v, ok := lookup0(cur + "0"); ok {
+					s.note(fmt.Sprintf("contract of %s: identifier %q resolved to the renamed parameter %q (names.json)", s.name, base, cur+"0"))
+					return v, true
+				}
+			}
+		}
+		if cur, k := s.P.localAlias(s.fn, base, ord); cur != "" {
+			if v, ok := lookup0(fmt.Sprintf("%s#%d", cur, k)); ok {
+				s.note(fmt.Sprintf("contract of %s: identifier %q resolved to the renamed local %q (names.json)", s.name, name, cur))
+				return v, true
+			}
+		}
+		return EVal{}, false
+	}
 	return env
 }
 
@@ -953,6 +988,7 @@ func (s *Session) bindArgs(env *Env, sig *types.Signature, callee *ssa.Function,
 		env.vars[fmt.Sprintf("arg%d", j)] = v
 		i++
 	}
+	s.addParamAliases(env, callee)
 }
 
 // ghostLocal: per-activation ghost variable of the function under verification.
